@@ -307,6 +307,14 @@ class Recorder:
         self.o += 1
         return self.o
 
+    def reset(self):
+        """forget what was recorded so far (a warm-up subscription), keep the declared taps"""
+        self.o = 0
+        for p in self.logs:
+            self.logs[p] = []
+        self.out, self.dl, self.dlend = [], [], 0
+        self.end = {'t': 'open', 'v': NONE, 'o': 0}
+
     def add(self, path, t, key, v):
         self.logs[tuple(path)].append({'t': t, 'k': flat_key(key), 'v': v, 'o': self.nxt()})
 
@@ -513,7 +521,21 @@ def _subscribe_routers(rec, ctx):
         errors.subscribe(on_next=dl_next, on_completed=dl_done, on_error=lambda e: None)
 
 
-def run_mux(pipe, events, timescale=None, taps='all', dl_late=False, share_ops=False):
+def _push(src, ev):
+    import rxsci as rs
+    t = ev['t']
+    key = (ev['k'][0],)
+    if t == 'c':
+        src.on_next(rs.OnCreateMux(key))
+    elif t == 'n':
+        src.on_next(rs.OnNextMux(key, dec(ev['v'])))
+    elif t == 'd':
+        src.on_next(rs.OnCompletedMux(key))
+    elif t == 'e':      # the key fails (an error event of the source itself)
+        src.on_next(rs.OnErrorMux(key, VerifError(ev.get('code', 9))))
+
+
+def run_mux(pipe, events, timescale=None, taps='all', dl_late=False, share_ops=False, warmup=None):
     """Push mux events directly on a MuxObservable (as the repository's own tests do).
     events: [{'t':'c'|'n'|'d', 'k':[idx], 'v':value}] ; the source completes at the end
     unless the last event is {'t':'open'}."""
@@ -533,6 +555,18 @@ def run_mux(pipe, events, timescale=None, taps='all', dl_late=False, share_ops=F
     def on_completed():
         rec.end = {'t': 'completed', 'v': NONE, 'o': rec.nxt()}
     with C.quiet_stdout():
+        if warmup:
+            # A first subscription of the same piped observable receives some events and is
+            # disposed with keys still open; nothing of it is recorded.  The execution that
+            # is judged is the second subscription.
+            try:
+                d0 = obs.subscribe(on_next=lambda i: None, on_error=lambda e: None)
+                for ev in warmup:
+                    _push(src, ev)
+                d0.dispose()
+            except Exception:
+                pass
+            rec.reset()
         if not dl_late:
             _subscribe_routers(rec, ctx)
         obs.subscribe(on_next=lambda i: None, on_error=on_error, on_completed=on_completed)
@@ -543,17 +577,8 @@ def run_mux(pipe, events, timescale=None, taps='all', dl_late=False, share_ops=F
             for ev in events:
                 if rec.end['t'] != 'open':
                     break
-                t = ev['t']
-                key = (ev['k'][0],)
-                if t == 'c':
-                    src.on_next(rs.OnCreateMux(key))
-                elif t == 'n':
-                    src.on_next(rs.OnNextMux(key, dec(ev['v'])))
-                elif t == 'd':
-                    src.on_next(rs.OnCompletedMux(key))
-                elif t == 'e':      # the key fails (an error event of the source itself)
-                    src.on_next(rs.OnErrorMux(key, VerifError(ev.get('code', 9))))
-                elif t == 'open':
+                _push(src, ev)
+                if ev['t'] == 'open':
                     complete = False
             if complete and rec.end['t'] == 'open':
                 src.on_completed()
